@@ -241,11 +241,22 @@ func (c *MapCodec) readMapEntry(mp, k unsafe.Pointer, data []byte) (int, error) 
 	val := mapassign(unpackEFace(c.rtype).data, mp, k)
 
 	if hasValue {
-		n, err := c.valueCodec.Read(data[offset:fieldEnd], val, wt)
-		if err != nil {
-			return 0, fmt.Errorf("failed reading value field of %s. %w", c.rtype.Name(), err)
+		for {
+			n, err := c.valueCodec.Read(data[offset:fieldEnd], val, wt)
+			if err != nil {
+				return 0, fmt.Errorf("failed reading value field of %s. %w", c.rtype.Name(), err)
+			}
+			offset += n
+			if offset >= len(data) {
+				break
+			}
+			// The value can occur more than once: a slice in the protobuf
+			// repeated-field form is written as one field per element.
+			offset, fieldEnd, _, wt, err = c.readTagAndLength(data, offset)
+			if err != nil {
+				return 0, err
+			}
 		}
-		offset += n
 	} else {
 		// No value - use the nil value.
 		typedmemmove(unpackEFace(c.rtype.Elem()).data, val, c.vZero)
